@@ -665,7 +665,7 @@ def r6_for_continue(lines, origin, repo, relfile, all_for=False):
     if re.search(r'\b(it__|v__)\b', text):
         raise RewriteError("R6: the names it__/v__ are already used in %s" % relfile)
     out, oo, notes = list(lines), list(origin), []
-    pat = re.compile(r'^(\s*)for (\w+) in (.+) \{\s*$')
+    pat = re.compile(r'^(\s*)for (\w+|\(\w+(?:, \w+)*\)) in (.+) \{\s*$') if all_for else re.compile(r'^(\s*)for (\w+) in (.+) \{\s*$')
     for p, kw, k, close in sorted(targets, reverse=True):
         a, b = text.count('\n', 0, p), text.count('\n', 0, close)
         where = "%s:%d" % (relfile, origin[a])
@@ -675,7 +675,10 @@ def r6_for_continue(lines, origin, repo, relfile, all_for=False):
         if lines[b].strip() != '}':
             raise RewriteError("R6: loop at %s does not close with `}` on its own line" % where)
         if any(k < lp[2] and lp[3] < close for lp in loops):
-            raise RewriteError("R6: loop at %s contains a nested loop" % where)
+            # a nested loop is harmless for the desugaring itself (unlabelled break/continue inside it target the inner
+            # loop before and after); labels would not be
+            if not all_for or re.search(r"'\w+\s*:\s*(loop|while|for)\b|\b(break|continue)\s+'", text[k:close]):
+                raise RewriteError("R6: loop at %s contains a nested loop" % where)
         if a + 1 >= b:
             raise RewriteError("R6: empty loop body at %s" % where)
         ind, x, e = mm.groups()
